@@ -16,6 +16,8 @@ pub enum Plan {
     /// ObjectsBeingTransferred: the object is announced by an OLDER FDT instance only - its first transfer is lost,
     /// newer instances that do not list it arrive, every later instance listing it is lost, its next transfer arrives
     OlderFdt,
+    /// transfer 1 loses every packet of block 0 (and, second mask, of block 3); the other transfers are complete
+    HoleFirstTransfer,
     JoinAll,
     /// every join offset within the first `n` consecutive full cycles
     JoinCycles(u32),
@@ -229,6 +231,12 @@ pub fn expand(plan: &Plan, sp: &SessP, st: &[PktInfo]) -> Vec<String> {
             let max_tr = st.iter().filter(|p| p.toi == 0).map(|p| p.tr).max().unwrap_or(0);
             for keep in 1..=max_tr.min(12) {
                 let m: Vec<u8> = st.iter().map(|p| if p.toi == 0 && p.tr != keep { 0 } else { 1 }).collect();
+                out.push(render(&m, false));
+            }
+        }
+        Plan::HoleFirstTransfer => {
+            for hole in [0u32, 3] {
+                let m: Vec<u8> = st.iter().map(|p| if p.toi != 0 && p.tr == 1 && p.sbn == hole { 0 } else { 1 }).collect();
                 out.push(render(&m, false));
             }
         }
@@ -843,6 +851,26 @@ pub fn gen_c02(seed: u64, thorough: bool) -> Vec<CaseSpec> {
                 }
             }
         }
+    }
+    // (h) the 4097-block look-ahead window (2 * MAX_PREALLOCATED_BLOCKS + 1): an object of more than 4097 blocks, two
+    // transfers, transfer 1 loses an early block (a hole only the next transfer fills): every symbol beyond the window
+    // restarts the object (open, error), transfer 2 delivers it - and an object inside the window (4000 blocks) with the
+    // same hole is delivered without a single error call
+    // (the model's symbol lists are quadratic: objects beyond the real window in the thorough tier only; the quick tier
+    // pins the window from inside - 600 / 1200 blocks with the hole must not see a single error call)
+    let win: Vec<(Scheme, u32, u32, u64)> = if thorough {
+        vec![(Scheme::NoCode, 16, 1, 4300), (Scheme::NoCode, 16, 1, 4000), (Scheme::RsUs, 8, 1, 4200), (Scheme::NoCode, 16, 1, 600)]
+    } else {
+        vec![(Scheme::NoCode, 16, 1, 600), (Scheme::NoCode, 4, 1, 1200), (Scheme::RsUs, 8, 1, 800)]
+    };
+    for (sch, e, b, nblk) in win {
+        let mut sp = base(Scheme::Rs);
+        let mut ob = ObjP::default();
+        ob.sz = nblk * e as u64 * b as u64;
+        ob.m = 2;
+        ob.oti = Some(OtiP { sch, e, b, p: if sch == Scheme::NoCode { 0 } else { 1 }, ifti: nblk % 200 == 0 });
+        sp.objs.push(ob);
+        push(sp, &mut cases, vec![Plan::HoleFirstTransfer]);
     }
     // (g) ObjectsBeingTransferred: an object announced only by an OLDER, still valid FDT instance (the newest complete
     // instance lists another object) must still be attached when its packets arrive
